@@ -165,3 +165,17 @@ Definition fold_conditions (stride n s width kw l r pad_old pad_new_folded : Z) 
 Definition needed_total_padding (input stride kernel : Z) : Z :=
   let out := (input + stride - 1) / stride in Z.max ((out - 1) * stride + kernel - input) 0.
 Definition same_lead_pad (input stride kernel : Z) : Z := needed_total_padding input stride kernel / 2.
+
+(* ---------- convert_prelu: which operators a PRELU with constant slopes becomes ---------- *)
+(* slopes are (code - zp) * sn / sd with sn, sd > 0 (the float32 scale as an exact fraction).
+   0 = RELU (all slopes 0), 1 = LEAKY_RELU (one slope), 2 = MAXIMUM (x, slope * x) (every slope below 1),
+   3 = RELU (x) + slope * MINIMUM (x, 0) *)
+Definition zmin_list (l : list Z) : Z := fold_right Z.min (hd 0 l) l.
+Definition zmax_list (l : list Z) : Z := fold_right Z.max (hd 0 l) l.
+Definition prelu_kind (codes : list Z) (zp sn sd : Z) : Z :=
+  let lo := zmin_list codes - zp in
+  let hi := zmax_list codes - zp in
+  if lo =? hi then (if lo =? 0 then 0 else 1)
+  else if hi * sn <? sd then 2 else 3.
+(* PRELU on values scaled by the common denominator d > 0 of the slope a / d *)
+Definition prelu_val (a d x : Z) : Z := if 0 <=? x then d * x else a * x.
